@@ -219,7 +219,7 @@ def snapshotting_int(check: Check, repo: Repo) -> None:
     from ..objmodel import ClassModel
     from ..ordabs import ModelRaise
 
-    cm = ClassModel(repo, CINT, CINT)
+    cm = ClassModel(repo, CINT, CINT, max_steps=3000000)
     if "SnapshottingInt" not in cm.classes:
         raise AnalysisError(f"anchor vanished: {CINT}::SnapshottingInt")
     ops = {
